@@ -976,17 +976,27 @@ fn sync_allocation_status(
                     None
                 }
                 AllocationState::Running {
-                    connected_workers, ..
+                    connected_workers,
+                    disconnected_workers,
+                    ..
                 } => {
-                    if allocation.target_worker_count == connected_workers.len() as u64 {
+                    if disconnected_workers.contains(worker_id) {
+                        // Worker ids are never reused, so this worker is already gone.
+                        // It must not be reported as connected.
                         log::warn!(
-                            "Allocation {allocation_id} already has the expected number of workers, worker {worker_id} is not expected"
+                            "Worker {worker_id} of allocation {allocation_id} has connected after it was already lost"
                         );
-                    }
-                    if !connected_workers.insert(worker_id) {
-                        log::warn!(
-                            "Allocation {allocation_id} already had worker {worker_id} connected"
-                        );
+                    } else {
+                        if allocation.target_worker_count == connected_workers.len() as u64 {
+                            log::warn!(
+                                "Allocation {allocation_id} already has the expected number of workers, worker {worker_id} is not expected"
+                            );
+                        }
+                        if !connected_workers.insert(worker_id) {
+                            log::warn!(
+                                "Allocation {allocation_id} already had worker {worker_id} connected"
+                            );
+                        }
                     }
                     None
                 }
@@ -999,15 +1009,23 @@ fn sync_allocation_status(
                 }
             },
             AllocationSyncReason::WorkerLost(worker_id, details) => {
+                if matches!(allocation.status, AllocationState::Queued { .. }) {
+                    log::warn!(
+                        "Worker {worker_id} has disconnected before its allocation was registered as running!"
+                    );
+                    // A worker can be lost only from an allocation that has already started.
+                    // Register the start now, so that the lost worker is accounted for below.
+                    allocation.status = AllocationState::Running {
+                        connected_workers: Default::default(),
+                        disconnected_workers: Default::default(),
+                        started_at: AbsoluteTime::now(),
+                        status_error_count: 0,
+                    };
+                    events.on_allocation_started(queue_id, allocation_id.to_string());
+                }
                 match &mut allocation.status {
-                    AllocationState::Queued {
-                        status_error_count: _,
-                    } => {
-                        log::warn!(
-                            "Worker {worker_id} has disconnected before its allocation was registered as running!"
-                        );
-                        None
-                    }
+                    // Handled above
+                    AllocationState::Queued { .. } => None,
                     AllocationState::Running {
                         disconnected_workers,
                         connected_workers,
